@@ -258,7 +258,7 @@ def rule_r6(chk, facts):
              'label from MakeSymbolic(.., "prefix", ..) carries no hexadecimal decoration ("$%s", "%sh"); (b) a '
              'disassembler module whose own operand formats use Intel hexadecimal ("%sh") sets IntelHexSyntax in its '
              'switch function, one that uses "$%s" clears it, and das.c prints the ORG address with "$" only under '
-             '!IntelHexSyntax and with a trailing "h" only under IntelHexSyntax', min_instances=12)
+             '!IntelHexSyntax and with a trailing "h" only under IntelHexSyntax', min_instances=8)
     import re
     P = facts.program('dasl')
     n = 0
@@ -331,7 +331,7 @@ def rule_r6(chk, facts):
                'sets IntelHexSyntax = %d' % want if ok else
                '%s() does not set IntelHexSyntax to %d although the module prints %s hexadecimal operands: ORG lines come out in '
                'the other syntax' % (sw, want, 'Intel' if want else 'Motorola'))
-    if n < 12:
+    if n < 8:
         raise AnalysisBroken('only %d syntax obligations found for DASL' % n)
 
 
